@@ -156,6 +156,9 @@ def run(ctx) -> Report:
         "meaning; shape guard, derivative handling and truthiness-of-image idioms checked."
     )
     rep.assumptions = ["images without free indices", "traversal driver model of sa/passlift.py", "dict lookup of terminals by object identity (UFL: structural equality of terminals)"]
+    from ..memokey import memo_rule
+
+    memo_rule(ctx, rep, "C21-key", ['ufl.algorithms.replace'])
     return rep
 
 
